@@ -213,6 +213,7 @@ def load_shim(path):
         'vf_fmemopen': (vp, [vp, sz, ctypes.c_char_p]),
         'vf_stdout': (vp, []), 'vf_stderr': (vp, []), 'vf_fflush_all': (ctypes.c_int, []),
         'vf_t13_set_real': (None, [vp]), 'vf_t13_plan': (None, [lg, lg, lg]),
+        'vf_scheme_set_real': (None, [vp, vp]), 'vf_scheme_override': (None, [lg]), 'vf_scheme_applied': (lg, []),
         'vf_t13_calls': (lg, []), 'vf_t13_replace': (None, [vp, sz]), 'vf_t13_seen': (lg, [vp, sz]), 'vf_t13_applied': (lg, []), 'vf_t13_last_len': (lg, []),
     }
     for k, (r, a) in sig.items():
